@@ -24,37 +24,48 @@ func (C03) Plan(tier string) core.Plan {
 
 func (C03) Info() core.Info {
 	return core.Info{
-		Rule:        "targets with 1-4 parameters of concrete types (named / type-only, with and without subtype, struct / pointer-struct / positional / built forms); for every parameter an exactly keyed supplied value; then 0-8 distractors: same-typed values under other names and subtypes, type-only duplicates, providers and converters (type-only and name-using, run-once, generated, cyclic) that could also produce each parameter; each world under 8-24 seeded iteration-order schedules incl. adversarial single-site orders. Oracle: no error, no converter executed, each named parameter holds the token supplied under exactly its key, each type-only parameter a supplied token of exactly its type. Non-trivial: at least one distractor converter could produce a parameter; distinct = distinct (world shape, event-log hash)",
+		Rule:        "targets with 1-4 parameters of concrete types (named / type-only, with and without subtype, struct / pointer-struct / positional / built forms); for every parameter an exactly keyed supplied value; the same Func is called 1-3 times with fresh instances of the supplied values; then 0-8 distractors: same-typed values under other names and subtypes, type-only duplicates, providers and converters (type-only and name-using, run-once, generated, cyclic) that could also produce each parameter; each world under 8-24 seeded iteration-order schedules incl. adversarial single-site orders. Oracle: no error, no converter executed, each named parameter holds the token supplied under exactly its key, each type-only parameter a supplied token of exactly its type. Non-trivial: at least one distractor converter could produce a parameter; distinct = distinct (world shape, event-log hash)",
 		Assumptions: []string{"parameters have concrete types (an interface-typed parameter cannot have an exactly keyed supply)"},
-		Probes:      []string{"c03_calls", "c03_distractor_could_produce", "c03_same_type_other_name", "c03_typeonly_params", "s1_nonidentity_perms"},
+		Probes:      []string{"c03_calls", "c03_repeated_calls", "c03_distractor_could_produce", "c03_same_type_other_name", "c03_typeonly_params", "s1_nonidentity_perms"},
 		Real:        realComponents,
 		Simulated:   simComponents,
 	}
 }
 
 func c03Valid(w world.World) bool {
-	if len(w.Ops) != 1 || w.Ops[0].Kind != world.OpCall || len(w.Faults) != 0 {
+	if len(w.Ops) == 0 || len(w.Faults) != 0 {
 		return false
 	}
-	v := model.ViewOf(&w, 0)
-	if v.HasNilOpt || v.HasBadConv {
-		return false
-	}
-	t := w.Parties[w.Ops[0].Target]
-	if len(t.In) == 0 {
-		return false
-	}
-	for _, s := range t.In {
-		if world.IsIface(s.Type) {
+	for oi, o := range w.Ops {
+		if o.Kind != world.OpCall || o.Target != w.Ops[0].Target {
 			return false
 		}
-		found := false
-		for _, l := range v.Supplied {
-			if l == s.Label {
-				found = true
+		v := model.ViewOf(&w, oi)
+		if v.HasNilOpt || v.HasBadConv {
+			return false
+		}
+		t := w.Parties[o.Target]
+		if len(t.In) == 0 {
+			return false
+		}
+		for _, s := range t.In {
+			if world.IsIface(s.Type) {
+				return false
+			}
+			found := false
+			for _, l := range v.Supplied {
+				if l == s.Label {
+					found = true
+				}
+			}
+			if !found {
+				return false
 			}
 		}
-		if !found {
+	}
+	// run-once distractors would legitimately carry values from call to call
+	for _, p := range w.Parties {
+		if p.Once {
 			return false
 		}
 	}
@@ -65,6 +76,20 @@ func (C03) Gen(r *simrt.RNG, tier string) core.Case {
 	cfg := world.SwarmCfg(r)
 	cfg.Ifaces = false
 	w := world.GenExact(r, cfg)
+	// call the same Func again with fresh instances of the supplied values
+	n := r.Intn(3)
+	for i := 0; i < n; i++ {
+		var args []int
+		for _, a := range w.Ops[0].Args {
+			if k := w.Args[a].Kind; k == world.ArgNamed || k == world.ArgTyped {
+				w.Args = append(w.Args, w.Args[a])
+				args = append(args, len(w.Args)-1)
+			} else {
+				args = append(args, a)
+			}
+		}
+		w.Ops = append(w.Ops, world.Op{Kind: world.OpCall, Target: 0, Args: args})
+	}
 	return RCase{W: w}
 }
 
@@ -110,55 +135,68 @@ func (C03) Run(c core.Case, ctx *core.Ctx) []core.Violation {
 			finish(ctx, rt, sim)
 			return nil
 		}
-		ctx.St.Inc("c03_calls")
-		if couldProduce {
-			ctx.St.Inc("c03_distractor_could_produce")
-		}
-		if otherName {
-			ctx.St.Inc("c03_same_type_other_name")
-		}
-		res := rt.Results[0]
-		switch {
-		case !res.Returned:
-			ctx.St.Inc("cross_c06_panic_or_divergence")
-		case res.Err != nil:
-			add("exact-match-call-failed", fmt.Sprintf("every parameter has an exactly keyed value but Call failed (%s): %.200s", res.ErrKind, res.Err.Error()))
-		default:
-			var texec *world.ExecRec
-			for i := res.LogFrom; i < res.LogTo; i++ {
-				rec := &rt.Log[i]
-				if rec.Party != tgt {
-					add("converter-executed-despite-exact-matches", fmt.Sprintf("party %d (%s) was executed although every parameter had an exact value", rec.Party, rt.Parties[rec.Party]))
-				} else {
-					texec = rec
-				}
+		for oi, res := range rt.Results {
+			if res == nil {
+				continue
 			}
-			if texec == nil {
-				add("target-not-executed", "Call returned no error but the target did not run")
-				break
+			view := model.ViewOf(&w, oi)
+			ctx.St.Inc("c03_calls")
+			if oi > 0 {
+				ctx.St.Inc("c03_repeated_calls")
 			}
-			for i, s := range t.In {
-				id := texec.In[i]
-				if id == 0 || id >= uint64(len(rt.Tokens)) {
-					add("exact-param-wrong-value", fmt.Sprintf("parameter %s received token %d", s.Label, id))
-					continue
+			if couldProduce {
+				ctx.St.Inc("c03_distractor_could_produce")
+			}
+			if otherName {
+				ctx.St.Inc("c03_same_type_other_name")
+			}
+			switch {
+			case !res.Returned:
+				ctx.St.Inc("cross_c06_panic_or_divergence")
+			case res.Err != nil:
+				add("exact-match-call-failed", fmt.Sprintf("every parameter has an exactly keyed value but Call failed (%s): %.200s", res.ErrKind, res.Err.Error()))
+			default:
+				var texec *world.ExecRec
+				for i := res.LogFrom; i < res.LogTo; i++ {
+					rec := &rt.Log[i]
+					if rec.Party != tgt {
+						add("converter-executed-despite-exact-matches", fmt.Sprintf("party %d (%s) was executed although every parameter had an exact value", rec.Party, rt.Parties[rec.Party]))
+					} else {
+						texec = rec
+					}
 				}
-				tk := rt.Tokens[id]
-				if s.Name != "" {
-					// must be the value supplied under exactly this key (the last one)
-					want := uint64(0)
-					for j, l := range view.Supplied {
-						if l == s.Label {
-							want = rt.ArgTok[view.SupArgs[j]]
+				if texec == nil {
+					add("target-not-executed", "Call returned no error but the target did not run")
+					break
+				}
+				suppliedNow := rt.SuppliedTokens(oi)
+				for i, s := range t.In {
+					id := texec.In[i]
+					if id == 0 || id >= uint64(len(rt.Tokens)) {
+						add("exact-param-wrong-value", fmt.Sprintf("parameter %s received token %d", s.Label, id))
+						continue
+					}
+					tk := rt.Tokens[id]
+					if tk.Kind == world.TokSupplied && !suppliedNow[id] {
+						add("exact-param-wrong-value", fmt.Sprintf("op %d: parameter %s received %s, a value supplied to an earlier call, not to this one", oi, s.Label, describeTok(tk)))
+						continue
+					}
+					if s.Name != "" {
+						// must be the value supplied under exactly this key (the last one)
+						want := uint64(0)
+						for j, l := range view.Supplied {
+							if l == s.Label {
+								want = rt.ArgTok[view.SupArgs[j]]
+							}
 						}
-					}
-					if id != want {
-						add("exact-param-wrong-value", fmt.Sprintf("named parameter %s received %s labelled %s instead of the value supplied under its key", s.Label, describeTok(tk), tk.Label))
-					}
-				} else {
-					ctx.St.Inc("c03_typeonly_params")
-					if tk.Kind != world.TokSupplied || tk.Label.Type != s.Type {
-						add("exact-param-wrong-value", fmt.Sprintf("type-only parameter %s received %s labelled %s, not a supplied value of exactly its type", s.Label, describeTok(tk), tk.Label))
+						if id != want {
+							add("exact-param-wrong-value", fmt.Sprintf("named parameter %s received %s labelled %s instead of the value supplied under its key", s.Label, describeTok(tk), tk.Label))
+						}
+					} else {
+						ctx.St.Inc("c03_typeonly_params")
+						if tk.Kind != world.TokSupplied || tk.Label.Type != s.Type {
+							add("exact-param-wrong-value", fmt.Sprintf("type-only parameter %s received %s labelled %s, not a supplied value of exactly its type", s.Label, describeTok(tk), tk.Label))
+						}
 					}
 				}
 			}
